@@ -13,6 +13,7 @@ structure St where
   done    : Nat := 0                                -- number of blocks already scanned by the wallet
   rs      : Option State := none                    -- wallet-side recovery/persistent state
   batch   : Nat := 2000
+  mem     : List Tx := []                           -- unmined transactions handed to the wallet (rmempool), for `m<id>`
   hyp     : Bool := true    -- the hypotheses of C16_complete / C16_complete_resumed held for every scan so far
   tainted : Bool := false   -- an injected FilterBlocks failure fired: in-process retry is outside the model (finding)
 
@@ -59,7 +60,7 @@ def lexKey (a b : Key) : Bool :=
 def showState (s : St) (st : State) : String :=
   let nexts := s.scopes.map fun sc => s!"{sc}:{st.nextOf (sc, false)}/{st.nextOf (sc, true)}"
   let used := (st.used.mergeSort lexKey).map fun k => s!"{k.scope}.{if k.internal then 1 else 0}.{k.index}"
-  let utxo := ((st.credits.filter (fun c => !c.spent)).mergeSort (fun a b => a.op.1 < b.op.1 || (a.op.1 == b.op.1 && a.op.2 ≤ b.op.2))).map
+  let utxo := ((spendable st).mergeSort (fun a b => a.op.1 < b.op.1 || (a.op.1 == b.op.1 && a.op.2 ≤ b.op.2))).map
     fun c => s!"{c.op.1}.{c.op.2}:{c.amount}"
   let txs := (st.txs.mergeSort (fun a b => a.1 ≤ b.1)).map fun p => s!"{p.1}@{p.2}"
   s!"next={joinWith "," nexts} used={joinWith "," used} bal={balance st} utxo={joinWith "," utxo} txs={joinWith "," txs}"
@@ -99,12 +100,39 @@ def step (s : St) (line : String) : St × String :=
   | ["bst"] => (s, showBranch s.br)
   | "rinit" :: rest =>
     match (kv rest "scopes").bind natList?, natOf rest "batch" with
-    | some scopes, some batch => ({ s with scopes := scopes, blocks := [], done := 0, rs := none, batch := batch, tainted := false, hyp := true }, "ok")
+    | some scopes, some batch => ({ s with scopes := scopes, blocks := [], done := 0, rs := none, batch := batch, tainted := false, hyp := true, mem := [] }, "ok")
     | _, _ => (s, "bad-op")
   | "rblk" :: rest =>
-    match (kv rest "txs").map (fun x => (splitOn1 x ";").mapM parseTx) with
+    -- `m<id>` = the unmined transaction <id> handed to the wallet earlier (rmempool) is mined in this block
+    let parse1 := fun (x : String) =>
+      if x.startsWith "m" then (x.drop 1).toNat?.bind (fun id => s.mem.find? (fun t => t.id == id)) else parseTx x
+    match (kv rest "txs").map (fun x => (splitOn1 x ";").mapM parse1) with
     | some (some txs) => ({ s with blocks := s.blocks ++ [(s.blocks.length + 1, txs)] }, "ok")
     | _ => (s, "bad-op")
+  | "rlease" :: rest | "rrelease" :: rest =>
+    let knownTx := fun (id : Nat) => (s.blocks.any (fun hb => hb.2.any (fun t => t.id == id))) || s.mem.any (fun t => t.id == id)
+    match s.rs, (kv rest "op").map (fun x => x.splitOn ".") with
+    | some st, some [a, b] =>
+      match a.toNat?, b.toNat? with
+      | some a, some b =>
+        if !knownTx a then (s, "bad-op") else
+        if t.head? == some "rlease" then
+          match leaseOutput st (a, b) with
+          | some st' => ({ s with rs := some st' }, "ok")
+          | none => (s, "err lease")
+        else
+          match releaseOutput st (a, b) with
+          | some st' => ({ s with rs := some st' }, showState s st')
+          | none => (s, "err release")
+      | _, _ => (s, "bad-op")
+    | _, _ => (s, "bad-op")
+  | "rmempool" :: rest =>
+    match s.rs, (kv rest "tx").bind parseTx with
+    | some st, some tx =>
+      if tx.outs.any (fun o => o.key.isSome) then (s, "bad-op") else
+      let st' := addUnmined st tx
+      ({ s with rs := some st', mem := s.mem ++ [tx] }, showState s st')
+    | _, _ => (s, "bad-op")
   | "rrecover" :: rest =>
     match natOf rest "w" with
     | some w =>
